@@ -770,6 +770,12 @@ def c13_programs(backend, tier):
     for seed in ("e.PRIM('A').Count()", "e.PRIM('A').Count() + 1", "e.PRIM('A').Select(lambda k: k.pt()).Sum()"):
         q = f"Select(EventDataset('ds'), lambda e: e.PRIM('A').Select(lambda j: j.pt()).Aggregate({seed}, lambda acc, v: acc + v))".replace("PRIM", P)
         out.append(make_program(q, backend, tags=("aggregate", "computed-seed")))
+    # a seed expression that the query uses again after the aggregate (bound once by a lambda): it keeps its own type and value
+    for expr in ("(lambda n: (j.vals().Aggregate(n, lambda acc, v: acc + v), n / 2, n))(j.nTrk())",
+                 "(lambda n: (j.vals().Aggregate(n, lambda acc, v: acc + v * 2) + n, n))(j.nTrk())",
+                 "(lambda n: (n / 2, j.ivals().Aggregate(n, lambda acc, v: acc + v / 2), n))(j.nTrk())"):
+        q = f"Select(SelectMany(EventDataset('ds'), lambda e: e.PRIM('A')), lambda j: {expr})".replace("PRIM", P)
+        out.append(make_program(q, backend, tags=("aggregate", "shared-seed")))
     # python builtins the documentation does not list: refusing is fine, accepting them with C++ integer semantics is not
     for expr in ("int(j.pt()) / 2", "int(j.pt())", "float(j.nTrk()) / 2", "max(j.pt(), 2)", "min(j.nTrk(), 2.5)", "max(j.pt(), j.eta())",
                  "round(j.pt()) / 2", "int(j.pt()) % 2", "abs(int(j.pt())) / 2"):
